@@ -778,7 +778,19 @@ def mask_walk_from_start(P, R, rule='C13.TAB.7'):
         raise AnalysisBroken('the mask test no longer compares group by group')
     cyc = [b for b in cmp_blocks if b in f.reach([e.dst for e in f.out[b]])]
     if not cyc:
-        raise AnalysisBroken('the group comparison of the mask test is not in a loop')
+        # no loop: the whole groups compared in one go, from the start of both arrays
+        mc = [ex for t in f.sites() for ex in ([t.ev] if t.ev['k'] == 'call' else []) + [x for e_ in rules.event_exprs(t.ev) for x in walk(e_) if isinstance(x, dict) and x.get('k') == 'callref']
+              if ex.get('callee') in ('memcmp', 'bcmp') and len(ex.get('args') or ()) >= 3]
+        mc += [x for b_ in f.blocks for x in walk(f.term_cond(b_) or {}) if isinstance(x, dict) and x.get('k') == 'callref' and x.get('callee') in ('memcmp', 'bcmp') and len(x.get('args') or ()) >= 3]
+        starts_ok = [c for c in mc if all(isinstance(a, dict) and a.get('k') == 'mem' and str(a.get('field', '')).startswith('in6') for a in c['args'][:2])]
+        if not starts_ok:
+            raise AnalysisBroken('the group comparison of the mask test is not in a loop')
+        early = [t for t in f.stores() if t.ev['k'] == 'store' and any(is_var(t.ev.get('lhs'), p_['name']) for p_ in f.param_info if 'int' in p_.get('t', '') and '*' not in p_.get('t', ''))
+                 and any(t.bid == b_ or f.dominates(t.bid, b_) for b_ in f.reachable_blocks() if any(isinstance(x, dict) and x.get('k') == 'callref' and x.get('callee') in ('memcmp', 'bcmp') for x in walk(f.term_cond(b_) or {})))]
+        R.ob(rule, True, f, 'the whole groups of the mask test are compared in one call, from the first group of both addresses', key='mask-walk:start')
+        R.ob(rule, not early, early[0] if early else f, 'the prefix length is not reduced before the walk', key='mask-walk:length')
+        R.floor(rule, 2)
+        return
     b0 = cyc[0]
     idxv = None
     for x in walk(f.term_cond(b0)):
